@@ -93,6 +93,7 @@ func cmdRun(args []string) int {
 	maxPaths := fs.Int("maxpaths", 0, "stop after this many paths (0 = no cap)")
 	timeFixed := fs.Bool("timefixed", false, "time.Now returns a fixed instant")
 	stall := fs.Bool("stall", false, "budget overruns are stall candidates")
+	timers := fs.Bool("timers", false, "timers with a finite duration may fire")
 	fs.Parse(args)
 	lp, err := loadProgram(*pkg)
 	if err != nil {
@@ -100,7 +101,7 @@ func cmdRun(args []string) int {
 		return 2
 	}
 	cfg := &harnessCfg{Prop: "adhoc", Pkg: *pkg, Func: *fn, Tier: *tier, StepBudget: *steps, DecBudget: *decs,
-		concLimit: *conc, Timeout: time.Duration(*timeout) * time.Second, Workers: *workers, FP: *fp, MaxPaths: *maxPaths, TimeFixed: *timeFixed, Stall: *stall}
+		concLimit: *conc, Timeout: time.Duration(*timeout) * time.Second, Workers: *workers, FP: *fp, MaxPaths: *maxPaths, TimeFixed: *timeFixed, Stall: *stall, TimersMayFire: *timers}
 	traceAll = *trace
 	res := runHarness(cfg, lp)
 	printResult(res)
